@@ -39,7 +39,7 @@ class Engine(CallMixin):
                 V.EXC_PARENTS[name] = parents[0] if parents else "Exception"
 
     # ------------------------------------------------------------------ verify
-    def verify(self, c: Contract) -> list[Obligation]:
+    def verify(self, c: Contract, variant_filter: Any = None) -> list[Obligation]:
         start = len(self.obligations)
         t0 = time.time()
         self.cur_func = c.key
@@ -69,6 +69,8 @@ class Engine(CallMixin):
                 import dataclasses
                 base_params = dict(c.params)
                 for i, ov in enumerate(c.variants):
+                    if variant_filter is not None and not variant_filter(i):
+                        continue      # this variant is verified by another worker
                     ov = dict(ov)
                     never = bool(ov.pop("$never_returns", False))   # declared: this variant has only raising paths
                     cv = dataclasses.replace(c, params={**base_params, **ov}, variants=[])
